@@ -768,7 +768,7 @@ pub fn gen_ws(ch: &mut Chooser, cx: &mut CaseCtx, o: &WsGenOpts) -> WsCase {
             feat.push("strip!=1".into());
         }
         if d.spelling != 0 {
-            feat.push(["", "name-with-doubled-slash", "name-with-interior-dot", "name-with-leading-dot"][d.spelling as usize].into());
+            feat.push(["", "name-with-doubled-slash", "name-with-interior-dot", "name-with-leading-dot", "absolute-name-stripped-by-pN"][d.spelling as usize].into());
         }
         series.push(line);
         if ch.chance(1, 10) {
@@ -796,7 +796,7 @@ pub fn gen_ws(ch: &mut Chooser, cx: &mut CaseCtx, o: &WsGenOpts) -> WsCase {
     }
     let mut s = series.join("\n");
     s.push('\n');
-    let spec = WsSpec { tree: t0, patches, series: B(s.into_bytes()), applied: None, dirs: vec![] };
+    let spec = WsSpec { tree: t0, patches, series: B(s.into_bytes()), applied: None, dirs: vec![], symlinks: vec![] };
     WsCase { spec, states, metas, fail_at, feat }
 }
 
